@@ -627,6 +627,29 @@ Proof.
   exact (progress_failed_cas cop core fn (cpure core_with) cident cprog cfn cop_is_read cprog_shape cident_pure cread_pure).
 Qed.
 
+(* ------------------------------------------------------------------ a sequential tail *)
+(* operations issued by one more goroutine after all the others have returned (s1: only the
+   goroutines of progs, all returned after it) take effect after everything else, in their
+   order: whatever the parallel part did, the tail's own last SetLevel / fields win *)
+Lemma conc_tail : forall c0 progs tail s1 s2 st1 tr1 st2 tr2,
+  crun (cinit c0 (progs ++ [tail])) s1 = (st1, tr1) -> crun st1 s2 = (st2, tr2) ->
+  (forall t, In t s1 -> (t < length progs)%nat) ->
+  (forall t, (t < length progs)%nat -> cops_of t st1 = []) ->
+  all_returned cop core st2 = true ->
+  untag cop tr2 = tail
+  /\ Permutation (untag cop tr1) (concat progs)
+  /\ (forall t, ops_of cop t tr1 = nth t progs [])
+  /\ abs (snd (m_cell st2)) = fold_left sapply tail (fold_left sapply (untag cop tr1) (abs c0)).
+Proof.
+  intros c0 progs tail s1 s2 st1 tr1 st2 tr2 H1 H2 Hs1 Hdone Hret.
+  destruct (run_tail cop core fn (cpure core_with) cident cprog cfn cop_is_read
+              cprog_shape cident_pure cread_pure c0 progs tail s1 s2 st1 tr1 st2 tr2 H1 H2 Hs1 Hdone Hret)
+    as (Ht & Hp & Ho & Hcell).
+  repeat split; try assumption.
+  change (apply_op cop core fn (cpure core_with) cfn) with capply in Hcell.
+  rewrite Hcell, abs_fold_capply, fold_left_app. reflexivity.
+Qed.
+
 (* ------------------------------------------------------------------ pinned code refuted *)
 Definition seq_witness : list op := [OInit 0 [1%N]; OEnableDebug 1; OWith 1 [2%N]].
 
